@@ -4,6 +4,7 @@ import (
 	"fmt"
 	"go/types"
 	"sort"
+	"strconv"
 	"strings"
 
 	"golang.org/x/tools/go/ssa"
@@ -14,7 +15,7 @@ import (
 func init() { Registry["C19"] = checkC19 }
 
 func checkC19(p *core.Prog, r *core.Report) {
-	r.Explanation = "Decides the wire conventions through which the packaged client primitives obtain their guarantees, as structural necessary conditions: (R1) every client.Lock built by a primitive carries the count / re-entrancy / flag values its guarantee rests on (exclusive 0/0, RLock rcount 0xff, readers 0xffff and writer 0, Semaphore / MaxConcurrentFlow the normalised n-1, PriorityLock priority + RCOUNT_IS_PRIORITY, Event mode counts and the wait-when-unlocked flag) - value origin over SSA with helper constructors inlined; (R2) the constructors and setters normalise n to n-1 exactly when n > 0 (0xffff / 0xff kept); (R3) every Lock method hands its own id, timeout, expiry, count and rcount to doLock/doUnlock in the matching argument position and doLock/doUnlock/Send* copy them to the matching fields of the LOCK / UNLOCK frame (same-typed swaps compile); (R4) the facades forward same-named quantities (timeout to timeout, expried to expried, count to count) down to the constructors; (R5) the client registers a request under its RequestId before the frame is written, removes it on every failing exit, and a reply is delivered once to the waiter found under the reply's own RequestId; (R6) the per-connection scratch buffers (server reply buffer, client request buffer) are written and handed to the stream only while the connection's mutex is held. (R7) the acquire methods report success only for result 0; (R8) the client reader decodes every reply into a fresh object. (R9) the lock ids the client primitives use come from protocol.GenLockId, the only source unique across connections (the server matches holders by id across connections). NOT decided: the admission behaviour itself under concurrency (C01/C02/C04 decide the server-side structure), pipelining order, reconnects, timing."
+	r.Explanation = "Decides the wire conventions through which the packaged client primitives obtain their guarantees, as structural necessary conditions: (R1) every client.Lock built by a primitive carries the count / re-entrancy / flag values its guarantee rests on (exclusive 0/0, RLock rcount 0xff, readers 0xffff and writer 0, Semaphore / MaxConcurrentFlow the normalised n-1, PriorityLock priority + RCOUNT_IS_PRIORITY, Event mode counts and the wait-when-unlocked flag) - value origin over SSA with helper constructors inlined; (R2) the constructors and setters normalise n to n-1 exactly when n > 0 (0xffff / 0xff kept); (R3) every Lock method hands its own id, timeout, expiry, count and rcount to doLock/doUnlock in the matching argument position and doLock/doUnlock/Send* copy them to the matching fields of the LOCK / UNLOCK frame (same-typed swaps compile); (R4) the facades forward same-named quantities (timeout to timeout, expried to expried, count to count) down to the constructors; (R5) the client registers a request under its RequestId before the frame is written, removes it on every failing exit, and a reply is delivered once to the waiter found under the reply's own RequestId; (R6) the per-connection scratch buffers (server reply buffer, client request buffer) are written and handed to the stream only while the connection's mutex is held. (R7) the acquire methods report success only for result 0; (R8) the client reader decodes every reply into a fresh object. (R9) the lock ids the client primitives use come from protocol.GenLockId, the only source unique across connections (the server matches holders by id across connections). (R10) server side of Event.Wait: the wake-up pass grants a waiter on a path that established depth 0 only after testing the waiter's unlock_to_wait flag (a real defect was repaired). NOT decided: the admission behaviour itself under concurrency (C01/C02/C04 decide the server-side structure), pipelining order, reconnects, timing."
 	r.Assumptions = []string{"Go type checker and go/ssa are correct for /repo"}
 	c19R1(p, r)
 	c19R2(p, r)
@@ -25,6 +26,7 @@ func checkC19(p *core.Prog, r *core.Report) {
 	c19R7(p, r)
 	c19R8(p, r)
 	c19R9(p, r)
+	c19R10(p, r)
 }
 
 // ---- R1: convention table -------------------------------------------------
@@ -1101,5 +1103,70 @@ func c19R9(p *core.Prog, r *core.Report) {
 	}
 	if n == 0 {
 		r.Fail("C19/R9: GenLockId has no return")
+	}
+}
+
+// c19R10: Event.Wait in default-clear mode is a LOCK with the unlock_to_wait
+// flag (README: "if the LockKey does not have any lock currently, it waits").
+// The request path honours the flag; the wake-up pass must honour it as well:
+// a pass that runs while the key is unlocked (the trailing pass of the very
+// unlock that cleared the event) must not grant a request that waits *because*
+// the key is unlocked, otherwise a Wait issued after Clear() has returned can
+// succeed without a Set. Decided on the paths of wakeUpWaitLocks with the
+// admission test inlined: a grant on a path that established depth == 0
+// carries a test of the waiter's unlock_to_wait flag.
+func c19R10(p *core.Prog, r *core.Report) {
+	const rule = "C19/R10"
+	r.Rule(rule, "the wake-up pass grants a waiter while the key is unlocked only after testing that the waiter does not carry the unlock_to_wait flag", 1)
+	fn := mustFunc(p, r, "server.(*LockDB).wakeUpWaitLocks")
+	adm := mustFunc(p, r, "server.(*LockDB).doLock")
+	if fn == nil || adm == nil {
+		return
+	}
+	flag := strconv.FormatInt(mustConst(p, r, "protocol", "TIMEOUT_FLAG_LOCK_WAIT_WHEN_UNLOCK"), 10)
+	n := 0
+	seen := map[string]bool{}
+	ex := core.NewExplorer(p, core.Hooks{
+		Inline: func(x *core.X, c *ssa.Function) bool { return c == adm },
+		Track:  func(x *core.X, a core.Atom) bool { return true },
+		Instr: func(x *core.X) {
+			if !x.Top() || !calleeIs(x.Ins, "LockDB", "wakeUpWaitLock") {
+				return
+			}
+			unlocked, tested := false, false
+			for h := range x.St.Hist {
+				h = core.Plain(h)
+				if strings.HasSuffix(h, ".locked == 0") {
+					unlocked = true
+				}
+				if strings.Contains(h, "TimeoutFlag & "+flag+")") {
+					tested = true
+				}
+			}
+			n++
+			key := "server.(*LockDB).wakeUpWaitLocks: grant while the key is unlocked"
+			if !unlocked {
+				key = "server.(*LockDB).wakeUpWaitLocks: grant while the key is held"
+			}
+			if seen[key+fmt.Sprint(tested)] {
+				return
+			}
+			seen[key+fmt.Sprint(tested)] = true
+			switch {
+			case !unlocked:
+				r.Hold(rule, key, x.Pos(), "normal admission by capacity")
+			case tested:
+				r.Hold(rule, key, x.Pos(), "the waiter's unlock_to_wait flag is tested on the path")
+			default:
+				r.Violate(rule, key, x.Pos(), "the pass grants the head waiter at depth 0 without looking at its unlock_to_wait flag: an Event.Wait (default-clear mode) that reaches the server between the reply of Clear()'s unlock and that unlock's trailing wake-up pass is queued (the key is unlocked) and then granted by the pass - Wait succeeds after Clear() returned, with no Set", x.St.Trace)
+			}
+		},
+	})
+	ex.Run(fn, nil)
+	if ex.Imprecise != "" {
+		r.Fail("C19/R10: %s", ex.Imprecise)
+	}
+	if n == 0 {
+		r.Fail("C19/R10: no grant found in wakeUpWaitLocks")
 	}
 }
